@@ -257,7 +257,7 @@ func (p *Parser) privatizeDef(m Value) string {
 		len(name) > 7 && !ascii.IsUpper(name[7]) {
 		p.Error("invalid getter (" + name + ")")
 	}
-	if !ascii.IsLower(name[0]) {
+	if name == "" || !ascii.IsLower(name[0]) {
 		return name
 	}
 	if strings.HasPrefix(name, "getter_") &&
